@@ -321,7 +321,7 @@ fn verif_c05_honest() {
                     for rep in 0..reps {
                         idx += 1;
                         // quick: thin out the grid deterministically
-                        if !env.thorough && vlib::fxhash(&(idx, ti, si, env.seed)) % 3 != 0 {
+                        if !env.thorough && vlib::fxhash(&(idx, ti, si, env.seed)) % 3 == 0 {
                             continue;
                         }
                         if !env.mine(idx) {
@@ -375,7 +375,7 @@ fn fault_sweep<R: Row>(rec: &mut Recorder, env: &vlib::Env, cfg_no: usize, n: us
     }
     // message faults
     // sparse worlds (fewer rows than shards) have few, tiny chunks: fault every one of them several times
-    let per_family = if n < shards { env.pick(8, 24) } else { env.pick(1, 6) };
+    let per_family = if n < shards { env.pick(8, 24) } else { env.pick(3, 8) };
     for ((fam, src), chunks) in &by_family {
         for k in 0..per_family.min(chunks.len() * 3) {
             *idx += 1;
